@@ -1249,3 +1249,206 @@ Proof.
   unfold interp_groups. cbn [filter]. replace (negb (is_nil (pack (s :: ss)))) with true by (destruct (pack (s :: ss)); [congruence|reflexivity]).
   reflexivity.
 Qed.
+
+(* ---- exported forms ------------------------------------------------------------------------------------------ *)
+Lemma next_enc pre s post : wf_setting s = true -> enc s <> [] ->
+  exists r, next (pre ++ enc s ++ post) (len pre) = Ok r
+            /\ fixn (pre ++ enc s ++ post) (len pre) r = len pre + len (enc s)
+            /\ (post <> [] -> r = len pre + len (enc s)).
+Proof.
+  intros Hw He. destruct (all_settings_ok s Hw He pre post prof0 0 (fun _ => eq_refl) (fun _ => eq_refl)) as [[r [H1 [H2 H3]]] _].
+  exists r. repeat split; try assumption. intros Hp. apply H3. destruct post; [congruence|reflexivity].
+Qed.
+
+(* ---- packed settings are byte strings ----------------------------------------------------------------------------- *)
+Lemma bytes_nil : bytes []. Proof. constructor. Qed.
+Lemma bytes_cons x l : 0 <= x < 256 -> bytes l -> bytes (x :: l).
+Proof. intros. constructor; assumption. Qed.
+Lemma bytes_flat_map {A} (f : A -> list Z) l : (forall x, In x l -> bytes (f x)) -> bytes (flat_map f l).
+Proof.
+  induction l as [|x l IH]; intros H; cbn [flat_map]; [constructor|].
+  apply bytes_app; [apply H; left; reflexivity|apply IH; intros y Hy; apply H; right; exact Hy].
+Qed.
+Lemma u8_byte x : 0 <= u8 x < 256. Proof. unfold u8. lia. Qed.
+Lemma bytes_be64 v : bytes (be64 v).
+Proof. unfold be64. repeat (apply bytes_cons; [apply u8_byte|]). constructor. Qed.
+Lemma bytes_be32 v : bytes (be32 v).
+Proof. unfold be32. repeat (apply bytes_cons; [apply u8_byte|]). constructor. Qed.
+Lemma len_take255 {A} (l : list A) : 0 <= len (take 255 l) < 256.
+Proof. pose proof (len_nonneg l). rewrite len_take_min by lia. lia. Qed.
+
+Lemma kind_byte b : match kind_of b with KOther => True | _ => 0 <= b < 256 end.
+Proof.
+  unfold kind_of.
+  repeat match goal with |- context [if ?c then _ else _] => destruct c eqn:? end; cbv beta iota; try exact I; lia.
+Qed.
+
+Ltac bb := repeat first [apply bytes_nil | apply bytes_cons; [first [apply hi8_byte | apply lo8_byte | lia]|] | apply bytes_app
+                        | apply bytes_take | apply bytes_be64 | apply bytes_be32 | assumption ].
+
+Lemma enc_bytes s : wf_setting s = true -> bytes (enc s).
+Proof.
+  destruct s; cbn [wf_setting enc]; cbv zeta; intros Hw;
+    repeat (match goal with H : _ && _ = true |- _ => apply andb_true_iff in H; destruct H end);
+    repeat (match goal with H : bytes_ok _ = true |- _ => apply bytes_ok_bytes in H end);
+    repeat (match goal with H : is_byte _ = true |- _ => unfold is_byte in H end);
+    repeat (match goal with |- bytes (if ?c then _ else _) => destruct c end); try solve [bb].
+  - (* SBit *) pose proof (kind_byte b). destruct (kind_of b); try discriminate; bb.
+  - (* SWC2 *) bb.
+    destruct (nh =? 0); [constructor|]. apply bytes_flat_map. intros kv Hin.
+      assert (Hin2 : In kv hdrs) by (rewrite <- (firstn_skipn 255 hdrs); apply in_or_app; left; exact Hin).
+      match goal with Hf : forallb _ hdrs = true |- _ => rewrite forallb_forall in Hf; specialize (Hf kv Hin2) end.
+      repeat (match goal with H : _ && _ = true |- _ => apply andb_true_iff in H; destruct H end).
+      repeat (match goal with H : bytes_ok _ = true |- _ => apply bytes_ok_bytes in H end).
+      unfold enc_hdr. cbv zeta. pose proof (len_take255 (fst kv)). pose proof (len_take255 (snd kv)). bb.
+  - (* SAES *)
+    assert (Hk : len k = 16 \/ len k = 24 \/ len k = 32) by (unfold aes_keylen_ok in *; lia).
+    unfold clamp8. replace (255 <? len k) with false by lia. bb.
+  - (* SDNS *) pose proof (len_nonneg names). pose proof (clamp8_range (len names)). bb.
+    apply bytes_flat_map. intros v Hin.
+    assert (Hin2 : In v names) by (rewrite <- (firstn_skipn 255 names); apply in_or_app; left; exact Hin).
+    rewrite forallb_forall in Hw. specialize (Hw v Hin2). apply andb_true_iff in Hw. destruct Hw as [_ Hb].
+    apply bytes_ok_bytes in Hb. unfold enc_name. cbv zeta. pose proof (len_take255 v). bb.
+Qed.
+
+Lemma pack_bytes ss : forallb wf_setting ss = true -> bytes (pack ss).
+Proof.
+  intros H. apply bytes_flat_map. intros s Hs. rewrite forallb_forall in H. apply enc_bytes. apply H. exact Hs.
+Qed.
+
+Lemma add_group_bytes c ss : bytes c -> wf_group ss = true -> bytes (add_group c ss).
+Proof.
+  intros Hc Hw. apply wf_group_parts in Hw. destruct Hw as [Hw _].
+  destruct ss as [|s ss]; [exact Hc|]. cbn [add_group].
+  apply bytes_app; [|apply pack_bytes; exact Hw].
+  destruct (is_nil c); [constructor|]. apply bytes_app; [exact Hc|]. apply bytes_cons; [unfold Separator; lia|constructor].
+Qed.
+
+Lemma pack_groups_bytes gs : wf_groups gs = true -> bytes (pack_groups gs).
+Proof.
+  unfold pack_groups, wf_groups. assert (G : forall gs c, bytes c -> forallb wf_group gs = true -> bytes (fold_left add_group gs c)).
+  { induction gs0 as [|ss gs0 IH]; intros c Hc H; cbn [fold_left]; [exact Hc|].
+    cbn [forallb] in H. apply andb_true_iff in H. destruct H as [H1 H2]. apply IH; [apply add_group_bytes; assumption|exact H2]. }
+  intros H. apply G; [constructor|exact H].
+Qed.
+
+(* validation succeeds exactly when building succeeds, on everything the constructors can pack *)
+Lemma validate_iff_build_pack gs : wf_groups gs = true ->
+  (validate (pack_groups gs) = Ok tt <-> exists r, build true (pack_groups gs) = Ok r).
+Proof. intros H. apply validate_iff_build. apply pack_groups_bytes. exact H. Qed.
+
+(* ... and both do succeed *)
+Lemma validate_pack gs : wf_groups gs = true -> validate (pack_groups gs) = Ok tt.
+Proof. intros H. apply validate_iff_build_pack; [exact H|]. eexists. apply build_groups. exact H. Qed.
+
+(* ---- MarshalBinary ---------------------------------------------------------------------------------------------- *)
+Lemma marshal_is_source tlsok c g e : build tlsok c = Ok (g, e) -> e <> [] -> marshal tlsok c = Ok c.
+Proof. intros H He. unfold marshal. rewrite H, bind_Ok. destruct e; [congruence|reflexivity]. Qed.
+Lemma marshal_only_source tlsok c c' : marshal tlsok c = Ok c' -> c' = c.
+Proof.
+  unfold marshal. destruct (build tlsok c) as [[g e]| |]; cbn [bind]; try discriminate.
+  destruct e; [discriminate|]. intros [= <-]. reflexivity.
+Qed.
+Lemma marshal_pack gs : wf_groups gs = true -> filter keep gs <> [] -> marshal true (pack_groups gs) = Ok (pack_groups gs).
+Proof.
+  intros Hw Hk. pose proof (build_groups gs Hw) as B. unfold interp_groups in B.
+  change (fun ss => negb (is_nil (pack ss))) with keep in B.
+  destruct (map interp_group (filter keep gs)) as [|r1 [|r2 rs]] eqn:E.
+  - destruct (filter keep gs); [congruence|discriminate].
+  - eapply marshal_is_source; [exact B|discriminate].
+  - eapply marshal_is_source; [exact B|].
+    intros Hs. assert (Hl : length (sort_w (map fst (r1 :: r2 :: rs))) = 0%nat) by (rewrite Hs; reflexivity).
+    revert Hl. unfold sort_w. cbn [map fold_left].
+    assert (G : forall l acc, (length acc <= length (fold_left (fun acc x => ins_w x acc) l acc))%nat).
+    { induction l as [|x l IH]; intros acc; cbn [fold_left]; [lia|].
+      eapply Nat.le_trans; [|apply IH].
+      clear. induction acc as [|y acc IHa]; cbn [ins_w length]; [lia|]. destruct (p_weight y <? p_weight x); cbn [length]; lia. }
+    intros Hl. pose proof (G (map fst rs) (ins_w (fst r2) (ins_w (fst r1) []))) as Hg.
+    assert (H2 : (2 <= length (ins_w (fst r2) (ins_w (fst r1) [])))%nat) by (cbn [ins_w]; destruct (p_weight (fst r1) <? p_weight (fst r2)); cbn [length]; lia).
+    lia.
+Qed.
+
+(* ---- "in the supplied order": hosts, pinned keys, wrappers ------------------------------------------------------ *)
+Definition host_of (s : setting) : list (list Z) :=
+  match s with SHost h => if len h =? 0 then [] else [take 65535 h] | _ => [] end.
+Definition key_of (s : setting) : list Z :=
+  match s with SKeyPin empty h => if empty then [] else [h] | _ => [] end.
+Definition wrap_of (s : setting) : list item :=
+  match s with
+  | SBit b => match kind_of b with KWrap => [simple_wrap b] | _ => [] end
+  | SXOR k => [(5, [], [take 65535 k])]
+  | SCBK s a b c d => [(6, [a; b; c; d; s], [])]
+  | SAES k iv => [(7, [], [iv])]
+  | _ => []
+  end.
+
+Lemma step_lists s p z :
+  p_hosts (fst (interp_step s (p, z))) = p_hosts p ++ host_of s /\
+  p_keys (fst (interp_step s (p, z))) = p_keys p ++ key_of s /\
+  p_wraps (fst (interp_step s (p, z))) = p_wraps p ++ wrap_of s.
+Proof.
+  destruct s; cbn [interp_step host_of key_of wrap_of];
+    try (match goal with |- context [if ?b then (p, z) else _] => destruct b end);
+    cbn [fst p_hosts p_keys p_wraps set_hosts set_sleep set_jitter set_kill set_work set_keys set_weight set_conn add_wrap set_trans];
+    rewrite ?app_nil_r; try (repeat split; reflexivity).
+  destruct (kind_of b); cbn [fst p_hosts p_keys p_wraps set_conn add_wrap set_trans]; rewrite ?app_nil_r; repeat split; reflexivity.
+Qed.
+
+Lemma run_lists : forall ss p z,
+  p_hosts (fst (run ss (p, z))) = p_hosts p ++ flat_map host_of ss /\
+  p_keys (fst (run ss (p, z))) = p_keys p ++ flat_map key_of ss /\
+  p_wraps (fst (run ss (p, z))) = p_wraps p ++ flat_map wrap_of ss.
+Proof.
+  induction ss as [|s ss IH]; intros p z; cbn [run fold_left flat_map].
+  - rewrite !app_nil_r. repeat split; reflexivity.
+  - destruct (interp_step s (p, z)) as [p1 z1] eqn:E. fold (run ss (p1, z1)).
+    destruct (IH p1 z1) as [H1 [H2 H3]]. destruct (step_lists s p z) as [S1 [S2 S3]]. rewrite E in S1, S2, S3. cbn [fst] in S1, S2, S3.
+    rewrite H1, H2, H3, S1, S2, S3, <- !app_assoc. repeat split; reflexivity.
+Qed.
+
+Lemma group_lists ss :
+  p_hosts (fst (interp_group ss)) = flat_map host_of ss /\
+  p_keys (fst (interp_group ss)) = flat_map key_of ss /\
+  p_wraps (fst (interp_group ss)) = flat_map wrap_of ss.
+Proof. unfold interp_group. fold (run ss (prof0, 0)). apply (run_lists ss prof0 0). Qed.
+
+(* ---- "the last one wins": sleep, jitter, weight, kill date, work hours; the one connector / transform ---------- *)
+Definition sleep_step (s : setting) (a : Z) : Z := match s with SSleep d => if d <=? 0 then a else d | _ => a end.
+Definition jitter_step (s : setting) (a : Z) : Z := match s with SJitter n => jitter_of (lo8 n) | _ => a end.
+Definition weight_step (s : setting) (a : Z) : Z := match s with SWeight w => if w =? 0 then a else weight_of (lo8 w) | _ => a end.
+Definition kill_step (s : setting) (a : bool * Z) : bool * Z :=
+  match s with SKillDate zero u => (true, if zero || (u64 u =? 0) then ZeroTimeUnix else u) | _ => a end.
+Definition work_step (s : setting) (a : option (list Z)) : option (list Z) :=
+  match s with SWorkHours d sh sm eh em => Some [d; sh; sm; eh; em] | _ => a end.
+Definition sel_step (s : setting) (a : Z) : Z :=
+  match s with SBit b => match kind_of b with KSel => b | _ => a end | _ => a end.
+
+Lemma step_scalars s p z :
+  let r := interp_step s (p, z) in
+  p_sleep (fst r) = sleep_step s (p_sleep p) /\ p_jitter (fst r) = jitter_step s (p_jitter p) /\
+  p_weight (fst r) = weight_step s (p_weight p) /\ (p_kds (fst r), p_kill (fst r)) = kill_step s (p_kds p, p_kill p) /\
+  p_work (fst r) = work_step s (p_work p) /\ snd r = sel_step s z.
+Proof.
+  cbv zeta. destruct s; cbn [interp_step sleep_step jitter_step weight_step kill_step work_step sel_step];
+    try (match goal with |- context [if ?b then (p, z) else _] => destruct b end);
+    cbn [fst snd p_sleep p_jitter p_weight p_kds p_kill p_work set_hosts set_sleep set_jitter set_kill set_work set_keys set_weight set_conn add_wrap set_trans];
+    try (repeat split; reflexivity).
+  destruct (kind_of b); cbn [fst snd p_sleep p_jitter p_weight p_kds p_kill p_work set_conn add_wrap set_trans]; repeat split; reflexivity.
+Qed.
+
+Lemma run_scalars : forall ss p z,
+  let r := run ss (p, z) in
+  p_sleep (fst r) = fold_left (fun a s => sleep_step s a) ss (p_sleep p) /\
+  p_jitter (fst r) = fold_left (fun a s => jitter_step s a) ss (p_jitter p) /\
+  p_weight (fst r) = fold_left (fun a s => weight_step s a) ss (p_weight p) /\
+  (p_kds (fst r), p_kill (fst r)) = fold_left (fun a s => kill_step s a) ss (p_kds p, p_kill p) /\
+  p_work (fst r) = fold_left (fun a s => work_step s a) ss (p_work p) /\
+  snd r = fold_left (fun a s => sel_step s a) ss z.
+Proof.
+  cbv zeta. induction ss as [|s ss IH]; intros p z; cbn [run fold_left].
+  - repeat split; reflexivity.
+  - pose proof (step_scalars s p z) as S. cbv zeta in S.
+    destruct (interp_step s (p, z)) as [p1 z1] eqn:E. fold (run ss (p1, z1)). cbn [fst snd] in S.
+    destruct S as [S1 [S2 [S3 [S4 [S5 S6]]]]]. destruct (IH p1 z1) as [H1 [H2 [H3 [H4 [H5 H6]]]]].
+    rewrite H1, H2, H3, H4, H5, H6, S1, S2, S3, S4, S5, S6. repeat split; reflexivity.
+Qed.
